@@ -310,6 +310,8 @@ pub trait Suite: Sync {
     fn setup(&self, t: &mut Tape) -> R<Vec<u8>>;
     fn setup_with_key(&self, t: &mut Tape, sk: &[u8]) -> R<Vec<u8>>;
     fn setup_pk(&self, setup: &Blob) -> R<Vec<u8>>;
+    /// ServerSetup::keypair().private() in its native encoding
+    fn setup_sk(&self, setup: &Blob) -> R<Vec<u8>>;
     fn reg_start(&self, t: &mut Tape, pw: &[u8]) -> R<(Vec<u8>, Vec<u8>)>;
     fn sreg_start(&self, setup: &Blob, req: &Blob, cid: &[u8]) -> R<Vec<u8>>;
     fn reg_finish(&self, t: &mut Tape, st: &Blob, pw: &[u8], resp: &Blob, idu: Ob, ids: Ob, ksf: Option<u32>) -> R<(Vec<u8>, Vec<u8>, Vec<u8>)>;
@@ -456,6 +458,10 @@ macro_rules! suite {
             fn setup_pk(&self, setup: &Blob) -> R<Vec<u8>> {
                 let s: ServerSetup<$name> = load(setup, |x| ServerSetup::<$name>::deserialize(x))?;
                 Ok(s.keypair().public().serialize().to_vec())
+            }
+            fn setup_sk(&self, setup: &Blob) -> R<Vec<u8>> {
+                let s: ServerSetup<$name> = load(setup, |x| ServerSetup::<$name>::deserialize(x))?;
+                Ok(s.keypair().private().serialize().to_vec())
             }
             fn reg_start(&self, t: &mut Tape, pw: &[u8]) -> R<(Vec<u8>, Vec<u8>)> {
                 let r = ClientRegistration::<$name>::start(t, pw).map_err(pe)?;
